@@ -140,12 +140,11 @@ def main(argv=None):
                 ok = False
         if not ok:
             print(f"INTERNAL: harness nondeterministic for {pid} {fp_key(v['fp'])} (replay {path} does not reproduce)")
-            rc = 2
+            rc = rc or 2
             continue
         print(f"  {v['what']}  [{v['count']}x]  fingerprint={fp_key(v['fp'])}")
         print(f"VIOLATION property={pid} replay={path}")
-        if rc == 0:
-            rc = 1
+        rc = 1  # a reproduced violation decides the exit code (2 = only unreproducible reports)
 
     level = info.get("level", "model_checking")
     cov = dict(
